@@ -313,6 +313,19 @@ def plant_kinds(doc):
         out.append(("unsupported-shift", wi, 'accessibleName: "a" >> 1'))
         out.append(("unsupported-expression", wi, "minimumWidth: 1 ** 2"))
         out.append(("type-mismatch-ternary", wi, 'maximumWidth: true ? 1 : "x"'))
+    # unsupported *dynamic* bindings: the constant pass leaves them "to be processed by the C++ pass", which must refuse them
+    for wi in idx("QCheckBox"):
+        i = ws[wi]["id"]
+        if i:
+            out.append(("dynamic-binding-on-spacer", "layout", "QSpacerItem { orientation: %s.checked ? Qt.Horizontal : Qt.Vertical }" % i))
+            for wj in anyw[:2]:
+                if wj != wi:
+                    out.append(("dynamic-attached-property", wj, "QLayout.alignment: %s.checked ? Qt.AlignLeft : Qt.AlignRight" % i))
+    for wi in idx("QSpinBox"):
+        i = ws[wi]["id"]
+        if i:
+            out.append(("dynamic-spacer-size-member", "layout", "QSpacerItem { sizeHint { width: 20; height: %s.value } }" % i))
+            out.append(("dynamic-spacer-size-member", "layout", "QSpacerItem { sizeHint.width: %s.value + 1 }" % i))
     out.append(("unknown-property", "root", "bogus: true"))
     out.append(("type-mismatch-string", "root", "styleSheet: 7"))
     out.append(("unknown-child-type", "layout", "QNoSuchWidget { }"))
